@@ -601,11 +601,16 @@ func (a *Async) equivocate(j, idx int, h uint32, v byte, honest []*Node) {
 	}
 	mask := 1 + a.r("eqmask", (1<<uint(min(len(at), 8)))-2)
 	ts := at[0].TipTs + w.Cfg.TsIncrement
+	var last []vt.H
 	mkProp := func(nonce uint64) Payload {
 		var hs []vt.H
 		if len(w.Universe) > 0 && a.pct("eqtx", 40) {
 			hs = append(hs, w.Universe[a.r("tx", len(w.Universe))].Hash())
 		}
+		if nonce >= 2000 && a.pct("eqsametx", 60) {
+			hs = append([]vt.H(nil), last...) // B differs from A in the nonce only
+		}
+		last = hs
 		p := vt.New(dbft.PrepareRequestType, h, v, uint16(idx), j, &vt.PrepareRequest{Ts: ts, N: nonce, Hashes: hs})
 		w.Proposals = append(w.Proposals, p)
 		return p
